@@ -269,8 +269,13 @@ class C03Bounded(Bounded):
         maxlen = 2 if tier == "quick" else 3
         ev = nontriv = 0
         seen, fails, samples = {}, [], []
-        for n in range(1, maxlen + 1):
-            for chain in itertools.product(mods, repeat=n):
+        # chains of three and four that put regular-expression flags, expand and the wildcard modifiers around each other (always run)
+        extra = [c for c in itertools.chain(itertools.permutations(("re", "i", "expand")), itertools.permutations(("re", "m", "s", "expand")), itertools.permutations(("re", "i", "expand", "s")),
+                                            itertools.permutations(("expand", "cased", "contains")), itertools.permutations(("expand", "endswith", "cased")), itertools.permutations(("re", "expand", "startswith")),
+                                            itertools.permutations(("windash", "contains", "all")), itertools.permutations(("wide", "base64offset", "contains")), itertools.permutations(("utf16le", "base64", "cased")))]
+        chains = [(n, chain) for n in range(1, maxlen + 1) for chain in itertools.product(mods, repeat=n)] + ([(len(c), c) for c in extra] if maxlen < 3 else [(len(c), c) for c in extra if len(c) > 3])
+        for n, chain in chains:
+            if True:
                 if n == 3 and tier != "quick" and len(set(chain)) < 3:
                     continue
                 for raw in values:
@@ -307,5 +312,5 @@ class C03Bounded(Bounded):
                         elif len(samples) < 4 and want != ERR and n == 2 and "windash" in chain:
                             samples.append({"key": key, "value": raw, "result": str(got)[:200]})
         return {"evaluations": ev, "distinct_nontrivial": nontriv, "failures": fails[:30], "failure_counts": seen,
-                "bound": f"all chains of <= {maxlen} modifiers from {len(mods)} identifiers x {len(values)} values (single and list; strings with wildcards, backslashes, percent, dashes/slashes at word and non-word boundaries, non-ASCII; numbers, bool, null)",
+                "bound": f"all chains of <= {maxlen} modifiers (plus {len(extra)} permutations of flag / expand / wildcard / encoding chains of length 3 and 4) from {len(mods)} identifiers x {len(values)} values (single and list; strings with wildcards, backslashes, percent, dashes/slashes at word and non-word boundaries, non-ASCII; numbers, bool, null)",
                 "rule": "distinct (chain, value); non-trivial = admissible by the specification", "samples": samples, "exhaustive": True}
